@@ -60,29 +60,33 @@ structure SInv (s : Cfg) : Prop where
   sb : ∀ c, c < s.n → s.serveBegins c = (if 4 ≤ s.st c then 1 else 0) ∧ s.serveEnds c = (if 5 ≤ s.st c then 1 else 0)
   notBad : s.bad = false
   rs : s.reqStop = true ↔ s.cpc ≠ CPc.running
+  td : s.threadDone = true → s.apc = APc.exited
+  jn : s.cpc = CPc.destroyed → s.threadDone = true
+  jt : s.joins = true
 
 theorem init_inv (n : Nat) (q : Bool) : SInv (init n q) := by
   refine ⟨by simp [init], ?_, by simp [init], by simp [init], by simp [init, inF], by simp [init], by simp [init],
-    by simp [init], by simp [init], rfl, by simp [init]⟩
+    by simp [init], by simp [init], rfl, by simp [init], by simp [init], by simp [init], rfl⟩
   simp only [init, inFlight]
   have : (List.range n).countP (fun c => decide (3 ≤ (0:Nat) ∧ (0:Nat) ≤ 6)) = 0 := by
     apply List.countP_eq_zero.mpr; intro c _; simp
   simp [this]
 
-/-- the destroyed server is never used: any server-touching step is disabled once `stop(true)` has returned -/
+/-- the destroyed server is never used: any server-touching step is disabled once the server is destroyed, and once
+    `stop(true)` has returned the only one still possible is the end of the accept thread itself -/
 theorem no_touch_after_return (s : Cfg) (a : Act) (hI : SInv s) (he : enabled s a = true)
-    (ht : touchesServer a = true) : s.cpc ≠ CPc.returned ∧ s.cpc ≠ CPc.destroyed := by
-  have key : s.apc ≠ APc.exited ∨ 0 < s.num → s.cpc ≠ CPc.returned ∧ s.cpc ≠ CPc.destroyed := by
+    (ht : touchesServer a = true) : s.cpc ≠ CPc.destroyed ∧ (a ≠ Act.loopEnd → s.cpc ≠ CPc.returned) := by
+  have key : s.apc ≠ APc.exited ∨ 0 < s.num → s.cpc ≠ CPc.destroyed ∧ (a ≠ Act.loopEnd → s.cpc ≠ CPc.returned) := by
     intro h
     constructor
     · intro hc
       rcases h with h | h
-      · exact h (hI.ctl1 (Or.inr (Or.inl hc)))
-      · have := hI.ctl2 (Or.inl hc); omega
-    · intro hc
-      rcases h with h | h
       · exact h (hI.ctl1 (Or.inr (Or.inr hc)))
       · have := hI.ctl2 (Or.inr hc); omega
+    · intro _ hc
+      rcases h with h | h
+      · exact h (hI.ctl1 (Or.inr (Or.inl hc)))
+      · have := hI.ctl2 (Or.inl hc); omega
   have flight : ∀ c, c < s.n → inF (s.st c) = true → 0 < s.num := by
     intro c hc h
     have := inFlight_pos_of s c hc h
@@ -107,6 +111,15 @@ theorem no_touch_after_return (s : Cfg) (a : Act) (hI : SInv s) (he : enabled s 
   | check seen =>
     simp only [enabled, Bool.and_eq_true, beq_iff_eq] at he
     exact key (Or.inl (by rw [he.1]; simp))
+  | loopFail =>
+    simp only [enabled, beq_iff_eq] at he
+    exact key (Or.inl (by rw [he]; simp))
+  | loopEnd =>
+    simp only [enabled, Bool.and_eq_true, beq_iff_eq, Bool.not_eq_true'] at he
+    refine ⟨?_, fun h => absurd rfl h⟩
+    intro hc
+    have := hI.jn hc
+    rw [he.2] at this; cases this
   | hBegin c =>
     simp only [enabled, Bool.and_eq_true, beq_iff_eq, decide_eq_true_eq] at he
     exact key (Or.inr (flight c he.1.1 (by simp [inF, he.1.2])))
@@ -131,12 +144,12 @@ theorem step_inv (s : Cfg) (a : Act) (hI : SInv s) (he : enabled s a = true) : S
   have hnt := no_touch_after_return s a hI he
   have hbad : (if touchesServer a && s.cpc == CPc.destroyed then { s with bad := true } else s) = s := by
     by_cases ht : touchesServer a = true
-    · have := (hnt ht).2
+    · have := (hnt ht).1
       simp [ht, this]
     · simp [ht]
   unfold step
   simp only [hbad]
-  obtain ⟨runIff, numEq, st2, cntLt, seq, inlLt, ctl1, ctl2, sb, notBad, rs⟩ := hI
+  obtain ⟨runIff, numEq, st2, cntLt, seq, inlLt, ctl1, ctl2, sb, notBad, rs, td, jn, jt⟩ := hI
   rw [inFlight_cnt] at numEq
   -- generic per-connection bookkeeping when connection c moves from status x to v
   have stUpd : ∀ (c v : Nat) (P : Nat → Prop) (Q : Nat → Prop), (∀ c', c' ≠ c → (P (s.st c') ↔ Q c')) → (P v ↔ Q c) →
@@ -152,7 +165,7 @@ theorem step_inv (s : Cfg) (a : Act) (hI : SInv s) (he : enabled s a = true) : S
     obtain ⟨hc, h0⟩ := he
     have hfl := cnt_upd s.n s.st c 1 hc
     simp only [h0, inF] at hfl
-    refine ⟨runIff, ?_, ?_, cntLt, ?_, inlLt, ctl1, ctl2, ?_, notBad, rs⟩
+    refine ⟨runIff, ?_, ?_, cntLt, ?_, inlLt, ctl1, ctl2, ?_, notBad, rs, (by first | exact td | (intro h; have := td h; simp_all)), (by first | exact jn | (intro h; simp at h) | (intro h; simp_all)), jt⟩
     · show s.num = ((cnt s.n (upd s.st c 1) : Nat) : Int)
       simp at hfl; omega
     · intro c' hc'
@@ -185,7 +198,7 @@ theorem step_inv (s : Cfg) (a : Act) (hI : SInv s) (he : enabled s a = true) : S
     obtain ⟨⟨hc, hap⟩, h1⟩ := he
     have hfl := cnt_upd s.n s.st c 2 hc
     simp only [h1, inF] at hfl
-    refine ⟨by simp only; rw [runIff, hap]; simp, ?_, ?_, ?_, ?_, ?_, ?_, ctl2, ?_, notBad, rs⟩
+    refine ⟨by simp only; rw [runIff, hap]; simp, ?_, ?_, ?_, ?_, ?_, ?_, ctl2, ?_, notBad, rs, (by first | exact td | (intro h; have := td h; simp_all)), (by first | exact jn | (intro h; simp at h) | (intro h; simp_all)), jt⟩
     · show s.num = ((cnt s.n (upd s.st c 2) : Nat) : Int)
       simp at hfl; omega
     · intro c' hc'
@@ -216,7 +229,7 @@ theorem step_inv (s : Cfg) (a : Act) (hI : SInv s) (he : enabled s a = true) : S
       have h2 : s.st c = 2 := (st2 c hc).mpr hap
       have hfl := cnt_upd s.n s.st c 3 hc
       simp only [h2, inF] at hfl
-      refine ⟨?_, ?_, ?_, ?_, ?_, ?_, ?_, ?_, ?_, notBad, rs⟩
+      refine ⟨?_, ?_, ?_, ?_, ?_, ?_, ?_, ?_, ?_, notBad, rs, (by first | exact td | (intro h; have := td h; simp_all)), (by first | exact jn | (intro h; simp at h) | (intro h; simp_all)), jt⟩
       · simp only; rw [runIff, hap]; by_cases hq : s.sequential = true <;> simp [hq]
       · show s.num + 1 = ((cnt s.n (upd s.st c 3) : Nat) : Int)
         simp at hfl; omega
@@ -253,7 +266,7 @@ theorem step_inv (s : Cfg) (a : Act) (hI : SInv s) (he : enabled s a = true) : S
     obtain ⟨⟨hc, h1⟩, hturn⟩ := he
     have hfl := cnt_upd s.n s.st c 4 hc
     simp only [h1, inF] at hfl
-    refine ⟨runIff, ?_, ?_, cntLt, ?_, inlLt, ctl1, ctl2, ?_, notBad, rs⟩
+    refine ⟨runIff, ?_, ?_, cntLt, ?_, inlLt, ctl1, ctl2, ?_, notBad, rs, (by first | exact td | (intro h; have := td h; simp_all)), (by first | exact jn | (intro h; simp at h) | (intro h; simp_all)), jt⟩
     · show s.num = ((cnt s.n (upd s.st c 4) : Nat) : Int)
       simp at hfl; omega
     · intro c' hc'
@@ -273,7 +286,7 @@ theorem step_inv (s : Cfg) (a : Act) (hI : SInv s) (he : enabled s a = true) : S
     obtain ⟨⟨hc, h1⟩, hturn⟩ := he
     have hfl := cnt_upd s.n s.st c 5 hc
     simp only [h1, inF] at hfl
-    refine ⟨runIff, ?_, ?_, cntLt, ?_, inlLt, ctl1, ctl2, ?_, notBad, rs⟩
+    refine ⟨runIff, ?_, ?_, cntLt, ?_, inlLt, ctl1, ctl2, ?_, notBad, rs, (by first | exact td | (intro h; have := td h; simp_all)), (by first | exact jn | (intro h; simp at h) | (intro h; simp_all)), jt⟩
     · show s.num = ((cnt s.n (upd s.st c 5) : Nat) : Int)
       simp at hfl; omega
     · intro c' hc'
@@ -293,7 +306,7 @@ theorem step_inv (s : Cfg) (a : Act) (hI : SInv s) (he : enabled s a = true) : S
     obtain ⟨⟨hc, h1⟩, hturn⟩ := he
     have hfl := cnt_upd s.n s.st c 6 hc
     simp only [h1, inF] at hfl
-    refine ⟨runIff, ?_, ?_, cntLt, ?_, inlLt, ctl1, ctl2, ?_, notBad, rs⟩
+    refine ⟨runIff, ?_, ?_, cntLt, ?_, inlLt, ctl1, ctl2, ?_, notBad, rs, (by first | exact td | (intro h; have := td h; simp_all)), (by first | exact jn | (intro h; simp at h) | (intro h; simp_all)), jt⟩
     · show s.num = ((cnt s.n (upd s.st c 6) : Nat) : Int)
       simp at hfl; omega
     · intro c' hc'
@@ -314,7 +327,7 @@ theorem step_inv (s : Cfg) (a : Act) (hI : SInv s) (he : enabled s a = true) : S
     have hfl := cnt_upd s.n s.st c 7 hc
     simp only [h1, inF] at hfl
     have hnum : 0 < s.num := by simp at hfl; omega
-    refine ⟨?_, ?_, ?_, ?_, ?_, ?_, ?_, ?_, ?_, notBad, rs⟩
+    refine ⟨?_, ?_, ?_, ?_, ?_, ?_, ?_, ?_, ?_, notBad, rs, (by first | exact td | (intro h; have := td h; simp_all)), (by first | exact jn | (intro h; simp at h) | (intro h; simp_all)), jt⟩
     · simp only
       by_cases hq : s.sequential = true
       · have a1 := (seq hq c hc).mp (by simp [inF, h1])
@@ -356,10 +369,10 @@ theorem step_inv (s : Cfg) (a : Act) (hI : SInv s) (he : enabled s a = true) : S
     simp only [enabled, Bool.and_eq_true, beq_iff_eq, Bool.or_eq_true, Bool.not_eq_true'] at he
     obtain ⟨hap, hseen⟩ := he
     cases seen with
-    | false => simp only [Bool.false_eq_true, if_false]; exact ⟨runIff, by rw [inFlight_cnt]; exact numEq, st2, cntLt, seq, inlLt, ctl1, ctl2, sb, notBad, rs⟩
+    | false => simp only [Bool.false_eq_true, if_false]; exact ⟨runIff, by rw [inFlight_cnt]; exact numEq, st2, cntLt, seq, inlLt, ctl1, ctl2, sb, notBad, rs, (by first | exact td | (intro h; have := td h; simp_all)), (by first | exact jn | (intro h; simp at h) | (intro h; simp_all)), jt⟩
     | true =>
       simp only [if_true]
-      refine ⟨by simp, by rw [inFlight_cnt]; exact numEq, ?_, ?_, ?_, ?_, ?_, ctl2, sb, notBad, rs⟩
+      refine ⟨by simp, by rw [inFlight_cnt]; exact numEq, ?_, ?_, ?_, ?_, ?_, ctl2, sb, notBad, rs, (by first | exact td | (intro h; have := td h; simp_all)), (by first | exact jn | (intro h; simp at h) | (intro h; simp_all)), jt⟩
       · intro c' hc'; have := st2 c' hc'; simp_all
       · intro c' hx; simp at hx
       · intro hq c' hc'; have := seq hq c' hc'; simp_all
@@ -367,20 +380,20 @@ theorem step_inv (s : Cfg) (a : Act) (hI : SInv s) (he : enabled s a = true) : S
       · intro _; rfl
   | reqStop =>
     simp only [enabled, beq_iff_eq] at he
-    refine ⟨runIff, by rw [inFlight_cnt]; exact numEq, st2, cntLt, seq, inlLt, ?_, ?_, sb, notBad, by simp⟩
+    refine ⟨runIff, by rw [inFlight_cnt]; exact numEq, st2, cntLt, seq, inlLt, ?_, ?_, sb, notBad, by simp, (by first | exact td | (intro h; have := td h; simp_all)), (by first | exact jn | (intro h; simp at h) | (intro h; simp_all)), jt⟩
     · intro hx; simp at hx
     · intro hx; simp at hx
   | readRunning =>
     simp only [enabled, beq_iff_eq] at he
     by_cases hr : s.running = true
-    · simp only [hr, if_true]; exact ⟨runIff, by rw [inFlight_cnt]; exact numEq, st2, cntLt, seq, inlLt, ctl1, ctl2, sb, notBad, rs⟩
+    · simp only [hr, if_true]; exact ⟨runIff, by rw [inFlight_cnt]; exact numEq, st2, cntLt, seq, inlLt, ctl1, ctl2, sb, notBad, rs, (by first | exact td | (intro h; have := td h; simp_all)), (by first | exact jn | (intro h; simp at h) | (intro h; simp_all)), jt⟩
     · have hr' : s.running = false := by simpa using hr
       simp only [hr', Bool.false_eq_true, if_false]
       have hex : s.apc = APc.exited := by
         by_cases hx : s.apc = APc.exited
         · exact hx
         · exact absurd (runIff.mpr hx) hr
-      refine ⟨by simp [hex], by rw [inFlight_cnt]; exact numEq, st2, cntLt, seq, inlLt, fun _ => hex, ?_, sb, notBad, ?_⟩
+      refine ⟨by simp [hex], by rw [inFlight_cnt]; exact numEq, st2, cntLt, seq, inlLt, fun _ => hex, ?_, sb, notBad, ?_, (by first | exact td | (intro h; have := td h; simp_all)), (by first | exact jn | (intro h; simp at h) | (intro h; simp_all)), jt⟩
       · intro hx; simp at hx
       · simp only; rw [rs, he]; simp
   | readNum =>
@@ -388,20 +401,37 @@ theorem step_inv (s : Cfg) (a : Act) (hI : SInv s) (he : enabled s a = true) : S
     have hex := ctl1 (Or.inl he)
     by_cases hn : s.num > 0
     · rw [if_pos hn]
-      refine ⟨runIff, by rw [inFlight_cnt]; exact numEq, st2, cntLt, seq, inlLt, ?_, ?_, sb, notBad, ?_⟩
+      refine ⟨runIff, by rw [inFlight_cnt]; exact numEq, st2, cntLt, seq, inlLt, ?_, ?_, sb, notBad, ?_, (by first | exact td | (intro h; have := td h; simp_all)), (by first | exact jn | (intro h; simp at h) | (intro h; simp_all)), jt⟩
       · intro hx; simp at hx
       · intro hx; simp at hx
       · simp only; rw [rs, he]; simp
     · rw [if_neg hn]
       have h0 : s.num = 0 := by omega
-      refine ⟨runIff, by rw [inFlight_cnt]; exact numEq, st2, cntLt, seq, inlLt, fun _ => hex, fun _ => h0, sb, notBad, ?_⟩
+      refine ⟨runIff, by rw [inFlight_cnt]; exact numEq, st2, cntLt, seq, inlLt, fun _ => hex, fun _ => h0, sb, notBad, ?_, (by first | exact td | (intro h; have := td h; simp_all)), (by first | exact jn | (intro h; simp at h) | (intro h; simp_all)), jt⟩
       simp only; rw [rs, he]; simp
   | destroy =>
-    simp only [enabled, beq_iff_eq] at he
+    simp only [enabled, Bool.and_eq_true, beq_iff_eq, Bool.or_eq_true, Bool.not_eq_true'] at he
+    obtain ⟨he, hj⟩ := he
+    have htd : s.threadDone = true := by
+      rcases hj with hj | hj
+      · rw [jt] at hj; cases hj
+      · exact hj
     have hex := ctl1 (Or.inr (Or.inl he))
     have h0 := ctl2 (Or.inl he)
-    refine ⟨runIff, by rw [inFlight_cnt]; exact numEq, st2, cntLt, seq, inlLt, fun _ => hex, fun _ => h0, sb, notBad, ?_⟩
+    refine ⟨runIff, by rw [inFlight_cnt]; exact numEq, st2, cntLt, seq, inlLt, fun _ => hex, fun _ => h0, sb, notBad, ?_, td, fun _ => htd, jt⟩
     simp only; rw [rs, he]; simp
+  | loopFail =>
+    simp only [enabled, beq_iff_eq] at he
+    have hap := he
+    refine ⟨by simp, by rw [inFlight_cnt]; exact numEq, ?_, ?_, ?_, ?_, ?_, ctl2, sb, notBad, rs, fun _ => rfl, jn, jt⟩
+    · intro c' hc'; have := st2 c' hc'; simp_all
+    · intro c' hx; simp at hx
+    · intro hq c' hc'; have := seq hq c' hc'; simp_all
+    · intro c' hx; simp at hx
+    · intro _; rfl
+  | loopEnd =>
+    simp only [enabled, Bool.and_eq_true, beq_iff_eq, Bool.not_eq_true'] at he
+    exact ⟨runIff, by rw [inFlight_cnt]; exact numEq, st2, cntLt, seq, inlLt, ctl1, ctl2, sb, notBad, rs, fun _ => he.1, fun _ => rfl, jt⟩
 
 theorem run_inv (r : List Act) (s : Cfg) (hI : SInv s) : SInv (run s r) := by
   induction r generalizing s with
@@ -415,7 +445,7 @@ theorem run_inv (r : List Act) (s : Cfg) (hI : SInv s) : SInv (run s r) := by
 /-- once `stop(true)` has returned only the environment (new connection attempts) and the destructor can act -/
 theorem after_return_enabled (s : Cfg) (a : Act) (hI : SInv s)
     (hc : s.cpc = CPc.returned ∨ s.cpc = CPc.destroyed) (he : enabled s a = true) :
-    (∃ c, a = Act.connect c) ∨ a = Act.destroy := by
+    (∃ c, a = Act.connect c) ∨ a = Act.destroy ∨ (a = Act.loopEnd ∧ s.cpc = CPc.returned) := by
   have hex := hI.ctl1 (Or.inr hc)
   have h0 := hI.ctl2 hc
   have hfl : ∀ c, c < s.n → inF (s.st c) = false := by
@@ -424,7 +454,13 @@ theorem after_return_enabled (s : Cfg) (a : Act) (hI : SInv s)
     have := hI.numEq; omega
   cases a with
   | connect c => exact Or.inl ⟨c, rfl⟩
-  | destroy => exact Or.inr rfl
+  | destroy => exact Or.inr (Or.inl rfl)
+  | loopFail => simp [enabled, hex] at he
+  | loopEnd =>
+    rcases hc with hc | hc
+    · exact Or.inr (Or.inr ⟨rfl, hc⟩)
+    · simp only [enabled, Bool.and_eq_true, beq_iff_eq, Bool.not_eq_true'] at he
+      have := hI.jn hc; rw [he.2] at this; cases this
   | accept c => simp [enabled, hex] at he
   | count => simp [enabled, hex] at he
   | check seen => simp [enabled, hex] at he
@@ -456,12 +492,15 @@ theorem after_return_stable (r : List Act) (s : Cfg) (hI : SInv s)
     by_cases he : enabled s a = true
     · simp only [he, if_true]
       have hI' := step_inv s a hI he
-      rcases after_return_enabled s a hI hc he with ⟨c, rfl⟩ | rfl
+      rcases after_return_enabled s a hI hc he with ⟨c, rfl⟩ | rfl | ⟨rfl, hret⟩
       · have hs : (step s (Act.connect c)).cpc = s.cpc := by simp [step, touchesServer]
         have := ih (step s (Act.connect c)) hI' (by rw [hs]; exact hc)
         simpa [step, touchesServer] using this
       · have hs : (step s Act.destroy).cpc = CPc.destroyed := by simp [step, touchesServer]
         have := ih (step s Act.destroy) hI' (Or.inr hs)
         simpa [step, touchesServer] using this
+      · have hs : (step s Act.loopEnd).cpc = s.cpc := by simp [step, touchesServer, hret]
+        have := ih (step s Act.loopEnd) hI' (by rw [hs]; exact hc)
+        simpa [step, touchesServer, hret] using this
     · simp only [he]; exact ih s hI hc
 end AslProofs.SockServer
